@@ -1743,11 +1743,17 @@ func presizedSerial(c *core.Ctx, fn *ssa.Function, entryMeth string) (applicable
 			return true, "the copy cursor does not advance by the number of octets copied"
 		}
 	}
-	// the buffer is used for nothing else and returned
+	// the buffer is used for nothing else and returned - as it is, or as b[:cursor] after the loop (the cursor has then
+	// reached the total: every copy had room for the whole entry, so that is the whole buffer)
+	var upTo *ssa.Slice
 	if ms.Referrers() != nil {
 		for _, r := range *ms.Referrers() {
 			switch x := r.(type) {
 			case *ssa.Slice:
+				if x != dst && x.Low == nil && x.Max == nil && x.High == ssa.Value(off) && !loops[1].Blocks[x.Block()] && upTo == nil {
+					upTo = x
+					continue
+				}
 				if x != dst {
 					return true, "the buffer is sliced elsewhere"
 				}
@@ -1759,7 +1765,7 @@ func presizedSerial(c *core.Ctx, fn *ssa.Function, entryMeth string) (applicable
 	}
 	for _, b := range fn.Blocks {
 		if ret, ok := b.Instrs[len(b.Instrs)-1].(*ssa.Return); ok {
-			if len(ret.Results) != 1 || ret.Results[0] != ssa.Value(ms) {
+			if len(ret.Results) != 1 || !(ret.Results[0] == ssa.Value(ms) || (upTo != nil && ret.Results[0] == ssa.Value(upTo))) {
 				return true, "the serialiser does not return the buffer it filled"
 			}
 		}
